@@ -199,6 +199,7 @@ def run_direct(rng, n, fns, known_filter=None, gen_kw=None, res=None):
         # in the property's domain: skipped and counted
         try:
             kp = direct.build_real_top(case['chain'])
+            case['prefit'] = dp.prefit_history(kp, case)
             kp.fit_transformers(case.get('Xfit', case['X']), n_inputs=case['nu'], episode_feature=case['ep'])
             if direct.min_ep_len(case) >= case['w']:
                 kp.transform(case['X'])
@@ -250,7 +251,7 @@ def replay_direct(path, extra_tests=None):
         return 1
     chain = ast.literal_eval(c['chain'])
     X = np.array(c['X'], dtype=float)
-    case = dict(cid=0, chain=chain, ns=c['n_states'], nu=c['n_inputs'], ep=c['episode_feature'], X=X, Xfit=X,
+    case = dict(cid=int(c.get('cid', 0)) if c.get('refitted_after_other_layout') else 0, chain=chain, ns=c['n_states'], nu=c['n_inputs'], ep=c['episode_feature'], X=X, Xfit=X,
                 mode=c.get('layout'), w=c.get('min_samples'), dims=None)
     if c.get('fit_on_zero_inputs'):
         Xf = np.array(X, copy=True)
@@ -259,6 +260,7 @@ def replay_direct(path, extra_tests=None):
     rng = np.random.default_rng(common.seed())
     try:
         kp = direct.build_real_top(chain)
+        dp.prefit_history(kp, case)
         kp.fit_transformers(case['Xfit'], n_inputs=case['nu'], episode_feature=case['ep'])
         ok, info = tests[c['test']](case, rng, kp)
     except Exception as e:  # noqa
